@@ -15,12 +15,22 @@
 (*          (maths.subtendedAngle <= cone_angle/2)           b, t in Z^3   *)
 (* azmask,  sensors/sensor_base.py:Sensor.isVisible, the     <<azlo,azhi,  *)
 (* elmask   elevation-mask test followed by the two-branch     ello,elhi>> *)
-(*          azimuth-mask test (lines 331-347)                <<az>>, <<el>>*)
+(*          azimuth-mask test (lines 331-347); the masks are <<az>>, <<el>>*)
+(*          given to the Sensor directly (action Construct)                *)
+(* azmaskcfg, elmaskcfg   the same ranges stated by the user in the public *)
+(*          configuration (scenario/config/sensor_config.py:               *)
+(*          SensorConfigBase azimuth_range / elevation_range ->            *)
+(*          sensors/__init__.py:sensorFactory; action Configure): the      *)
+(*          azimuth range is ORDERED (first > second wraps through north), *)
+(*          the elevation range is documented as order independent         *)
 (* los      physics/sensor_utils.py:lineOfSight              <<R>>, a, b   *)
 (* limb     sensor_utils.py:checkSpaceSensorEarthLimb-       <<R>>, s, p   *)
 (*          Obscuration (tangent cone of the limb sphere)                  *)
 (* sun      sensor_utils.py:calculateSunVizFraction          <<R>>, u, t   *)
 (*          (u Sun direction, t target; range/limit clauses)               *)
+(* pen      calculateSunVizFraction across the penumbra:     <<K,u,w>>     *)
+(*          target at r10/10 Earth radii in the plane (u,w), <<r10>>, <<k>>*)
+(*          step k of K across the band between the umbra and the lit side *)
 (*                                                                         *)
 (* Angles are integers on the circle Z_N (N = 360: degrees); elevations    *)
 (* are integers in -N/4 .. N/4; positions and directions are integer       *)
@@ -39,7 +49,9 @@
 (*   ConicSymmetric, ConicScaleInvariant; AzMaskAdmits / AzMaskMargin,     *)
 (*   MaskTwoBranch, MaskRotationEquivariant, MaskComplement; LosMargin,    *)
 (*   LosSymmetric, LosIsSegmentTest, LosRigidInvariant; LimbMargin,        *)
-(*   LimbIsBlockedRay; SunClass, SunFullHasClearRay, SunUmbraHasBlockedRay.*)
+(*   LimbIsBlockedRay; SunClass, SunFullHasClearRay, SunUmbraHasBlockedRay;*)
+(*   ConfiguredArcAdmitted, ConfigKeepsAzimuthOrder,                       *)
+(*   ConfigElevationUnordered, DirectMaskAsGiven; PenBand.                 *)
 (* The state machine poses a geometry in stages (so that TLC's workers     *)
 (* share the enumeration), evaluates it with the same steps as the code    *)
 (* and emits the expected answer.                                          *)
@@ -47,24 +59,27 @@
 EXTENDS Integers, Sequences, FiniteSets, TLC, Json
 
 CONSTANTS
-  Kinds,        \* subset of {"rect","conic","azmask","elmask","los","limb","sun"}
+  Kinds,        \* subset of KindsAll
   N,            \* ticks per turn
   RectShapes, AzGrid, ElGrid, Rots,
   Cones, DirMax,
-  MaskGrid, MaskAz, MaskEl,
+  MaskGrid, MaskAz, MaskEl, MaskAzCfg,
   ElMaskShapes, ElMaskAz, ElMaskEl,
   LosR, LosMax, LosToStep,
   LimbR, LimbMax, LimbSensors,
-  SunR, SunMax, SunDirs
+  SunR, SunMax, SunDirs,
+  PenK, PenOut, PenFrames, PenDist
 
 ASSUME N % 4 = 0
 
-VARIABLES pc, kind, shape, from, to, out
-vars == <<pc, kind, shape, from, to, out>>
+VARIABLES pc, kind, shape, from, to, out,
+          eff     \* mask kinds: the [az0, az1, el0, el1] mask that reaches the Sensor object
+vars == <<pc, kind, shape, from, to, out, eff>>
 
 (*************************** integer helpers ******************************)
 Abs(x)     == IF x < 0 THEN -x ELSE x
 Min2(a, b) == IF a <= b THEN a ELSE b
+Max2(a, b) == IF a >= b THEN a ELSE b
 SSq(x)     == x * Abs(x)                       \* signed square: strictly monotone
 Dot(u, v)  == u[1] * v[1] + u[2] * v[2] + u[3] * v[3]
 N2(u)      == Dot(u, u)
@@ -178,24 +193,28 @@ OnLattice(v, k) == v[1] % k = 0 /\ v[2] % k = 0 /\ v[3] % k = 0
 Shapes(k) ==
   CASE k = "rect"   -> RectShapes
     [] k = "conic"  -> Cones
-    [] k = "azmask" -> {<<lo, hi, -Quarter, Quarter>> : lo \in MaskGrid, hi \in MaskGrid}
-    [] k = "elmask" -> ElMaskShapes
+    \* elevation range (-90, 90] as the configuration admits it
+    [] k \in {"azmask", "azmaskcfg"} -> {<<lo, hi, 1 - Quarter, Quarter>> : lo \in MaskGrid, hi \in MaskGrid}
+    [] k \in {"elmask", "elmaskcfg"} -> ElMaskShapes
     [] k = "los"    -> {<<LosR>>}
     [] k = "limb"   -> {<<LimbR>>}
     [] k = "sun"    -> {<<SunR>>}
+    [] k = "pen"    -> {<<PenK, f[1][1], f[1][2], f[1][3], f[2][1], f[2][2], f[2][3]>> : f \in PenFrames}
 Froms(k) ==
   CASE k = "rect"   -> AzGrid \X ElGrid
     [] k = "conic"  -> Dirs
     [] k = "azmask" -> {<<az>> : az \in MaskAz}
-    [] k = "elmask" -> {<<az>> : az \in ElMaskAz}
+    [] k = "azmaskcfg" -> {<<az>> : az \in MaskAzCfg}
+    [] k \in {"elmask", "elmaskcfg"} -> {<<az>> : az \in ElMaskAz}
     [] k = "los"    -> {a \in Cube(LosMax) : N2(a) >= LosR * LosR}
     [] k = "limb"   -> LimbSensors
     [] k = "sun"    -> SunDirs
+    [] k = "pen"    -> {<<r>> : r \in PenDist}
 Tos(k, f) ==
   CASE k = "rect"   -> AzGrid \X ElGrid
     [] k = "conic"  -> Dirs
-    [] k = "azmask" -> {<<el>> : el \in MaskEl}
-    [] k = "elmask" -> {<<el>> : el \in ElMaskEl}
+    [] k \in {"azmask", "azmaskcfg"} -> {<<el>> : el \in MaskEl}
+    [] k \in {"elmask", "elmaskcfg"} -> {<<el>> : el \in ElMaskEl}
     [] k = "los"    -> {b \in Cube(LosMax) : /\ N2(b) >= LosR * LosR /\ b # f
                                              /\ OnLattice(b, LosToStep)
                                              \* unordered pairs: the driver replays both orders
@@ -203,20 +222,37 @@ Tos(k, f) ==
     [] k = "limb"   -> Cube(LimbMax) \ {f}
     \* "only valid for orbiting satellites": strictly above the surface
     [] k = "sun"    -> {t \in Cube(SunMax) : N2(t) > SunR * SunR}
+    [] k = "pen"    -> {<<j>> : j \in (-PenOut)..(PenK + PenOut)}
+
+IsMask(k)    == k \in {"azmask", "elmask", "azmaskcfg", "elmaskcfg"}
+ViaConfig(k) == k \in {"azmaskcfg", "elmaskcfg"}
 
 NoRes == Res(FALSE, 0, "none")
-Init == pc = "start" /\ kind = "none" /\ shape = <<>> /\ from = <<>> /\ to = <<>> /\ out = NoRes
+Init == /\ pc = "start" /\ kind = "none" /\ shape = <<>> /\ from = <<>> /\ to = <<>> /\ out = NoRes
+        /\ eff = <<>>
 
 PoseKind  == /\ pc = "start" /\ \E k \in Kinds : kind' = k
-             /\ pc' = "kind" /\ UNCHANGED <<shape, from, to, out>>
+             /\ pc' = "kind" /\ UNCHANGED <<shape, from, to, out, eff>>
 PoseShape == /\ pc = "kind" /\ \E s \in Shapes(kind) : shape' = s
-             /\ pc' = "shape" /\ UNCHANGED <<kind, from, to, out>>
-PoseFrom  == /\ pc = "shape" /\ \E f \in Froms(kind) : from' = f
-             /\ pc' = "from" /\ UNCHANGED <<kind, shape, to, out>>
-PoseTo    == /\ pc = "from" /\ \E t \in Tos(kind, from) : to' = t
-             /\ pc' = "posed" /\ UNCHANGED <<kind, shape, from, out>>
+             /\ pc' = "shape" /\ UNCHANGED <<kind, from, to, out, eff>>
 
-Done(r) == out' = r /\ pc' = "done" /\ UNCHANGED <<kind, shape, from, to>>
+\* The sensor is built ONCE per stated mask, then asked about many targets.
+\* Sensor.__init__ / the az_mask, el_mask setters: the masks are taken as given
+Construct == /\ pc = "shape" /\ IsMask(kind) /\ ~ViaConfig(kind)
+             /\ eff' = shape
+             /\ pc' = "built" /\ UNCHANGED <<kind, shape, from, to, out>>
+\* SensorConfigBase validators -> sensorFactory -> Sensor.fromConfig: the azimuth range keeps
+\* its order (first > second means "through north"), the elevation range is an unordered pair
+Configure == /\ pc = "shape" /\ ViaConfig(kind)
+             /\ eff' = <<shape[1], shape[2], Min2(shape[3], shape[4]), Max2(shape[3], shape[4])>>
+             /\ pc' = "built" /\ UNCHANGED <<kind, shape, from, to, out>>
+
+PoseFrom  == /\ pc = (IF IsMask(kind) THEN "built" ELSE "shape") /\ \E f \in Froms(kind) : from' = f
+             /\ pc' = "from" /\ UNCHANGED <<kind, shape, to, out, eff>>
+PoseTo    == /\ pc = "from" /\ \E t \in Tos(kind, from) : to' = t
+             /\ pc' = "posed" /\ UNCHANGED <<kind, shape, from, out, eff>>
+
+Done(r) == out' = r /\ pc' = "done" /\ UNCHANGED <<kind, shape, from, to, eff>>
 
 \* RectangularFoV.inFieldOfView
 EvalRect  == pc = "posed" /\ kind = "rect" /\ Done(RectEval(shape, from, to))
@@ -226,15 +262,15 @@ EvalConic == /\ pc = "posed" /\ kind = "conic"
 
 \* Sensor.isVisible: elevation mask first ...
 MaskElevation ==
-  /\ pc = "posed" /\ kind \in {"azmask", "elmask"}
-  /\ LET em == ElMaskMargin(shape[3], shape[4], to[1])
+  /\ pc = "posed" /\ IsMask(kind)
+  /\ LET em == ElMaskMargin(eff[3], eff[4], to[1])
      IN IF em < 0 THEN Done(Res(FALSE, em, "elevation_mask"))
         ELSE /\ out' = Res(TRUE, em, "elevation_ok") /\ pc' = "elchecked"
-             /\ UNCHANGED <<kind, shape, from, to>>
+             /\ UNCHANGED <<kind, shape, from, to, eff>>
 \* ... then the azimuth mask
 MaskAzimuth ==
   /\ pc = "elchecked"
-  /\ LET am == AzMaskMargin(shape[1], shape[2], from[1])
+  /\ LET am == AzMaskMargin(eff[1], eff[2], from[1])
          em == out.margin
      IN IF am < 0 THEN Done(Res(FALSE, am, IF em = 0 THEN "any" ELSE "azimuth_mask"))
         ELSE Done(Res(TRUE, Min2(am, em), "visible"))
@@ -243,7 +279,7 @@ MaskAzimuth ==
 LosClosest ==
   /\ pc = "posed" /\ kind = "los"
   /\ out' = Res(TRUE, 0, LosBranch(from, to)) /\ pc' = "closest"
-  /\ UNCHANGED <<kind, shape, from, to>>
+  /\ UNCHANGED <<kind, shape, from, to, eff>>
 \* ... else compare the closest distance with the radius
 LosDecide ==
   /\ pc = "closest"
@@ -261,9 +297,19 @@ EvalSun == /\ pc = "posed" /\ kind = "sun"
            /\ LET c == SunClass(shape[1], from, to)
               IN Done(Res(c = "full", IF c = "range" THEN 0 ELSE 1, c))
 
-Next == \/ PoseKind \/ PoseShape \/ PoseFrom \/ PoseTo
+\* calculateSunVizFraction across the penumbra.  The target sits at distance r in the plane of
+\* the Sun direction u and a perpendicular w, at the angle  (b - a) + (k / K) * 2a  from the
+\* shadow axis (a, b: apparent radii of Sun and Earth): k < 0 umbra (fraction 0), k > K fully
+\* lit (1), in between the fraction is the visible part of the Sun's disc: it GROWS with k, and
+\* its value (the disc-overlap integral, transcendental) is evaluated by the driver.  The margin
+\* is the number of steps to the nearer end of the band.
+PenWhy(K, j) == IF j < 0 THEN "umbra" ELSE IF j > K THEN "lit" ELSE "penumbra"
+EvalPen == /\ pc = "posed" /\ kind = "pen"
+           /\ Done(Res(to[1] > shape[1], Min2(Abs(to[1]), Abs(to[1] - shape[1])), PenWhy(shape[1], to[1])))
+
+Next == \/ PoseKind \/ PoseShape \/ Construct \/ Configure \/ PoseFrom \/ PoseTo
         \/ EvalRect \/ EvalConic \/ MaskElevation \/ MaskAzimuth
-        \/ LosClosest \/ LosDecide \/ EvalLimb \/ EvalSun
+        \/ LosClosest \/ LosDecide \/ EvalLimb \/ EvalSun \/ EvalPen
 Spec == Init /\ [][Next]_vars
 
 (***************************************************************************)
@@ -323,6 +369,23 @@ MaskComplement ==
     ((0 < Span(shape[1], shape[2]) /\ Span(shape[1], shape[2]) < N) =>
        AzMaskMargin(shape[2], shape[1], from[1]) = -AzMaskMargin(shape[1], shape[2], from[1]))
 
+\* an explicit decreasing elevation mask handed to the Sensor object admits nothing (DESIGN D37)
+DirectInvertedElevationEmpty == (MaskDone /\ shape[3] > shape[4]) => ~out.exp
+DirectMaskAsGiven ==
+  (IsMask(kind) /\ ~ViaConfig(kind) /\ pc \notin {"start", "kind", "shape"}) => eff = shape
+
+\* ---- masks stated in the public configuration: the sensor admits exactly the configured arc
+CfgBuilt == ViaConfig(kind) /\ pc \notin {"start", "kind", "shape"}
+CfgDone  == ViaConfig(kind) /\ pc = "done"
+ElUserMargin(lo, hi, el) == ElMaskMargin(Min2(lo, hi), Max2(lo, hi), el)
+ConfiguredArcAdmitted ==
+  CfgDone => (out.margin # 0 =>
+                out.exp = (/\ ElUserMargin(shape[3], shape[4], to[1]) >= 0
+                           /\ AzMaskAdmits(shape[1], shape[2], from[1])))
+\* the azimuth range is ordered: sorting it would turn a mask through north into its complement
+ConfigKeepsAzimuthOrder  == CfgBuilt => (eff[1] = shape[1] /\ eff[2] = shape[2])
+ConfigElevationUnordered == CfgBuilt => (eff[3] <= eff[4] /\ {eff[3], eff[4]} = {shape[3], shape[4]})
+
 \* ---- line of sight
 LosSymmetric == Is("los", "done") => /\ LosMargin(shape[1], to, from) = out.margin
                                      /\ LineOfSight(shape[1], to, from) = out.exp
@@ -353,6 +416,16 @@ SunFullHasClearRay ==
 SunUmbraHasBlockedRay ==
   (Is("sun", "done") /\ out.why = "umbra") => LimbMargin(shape[1], to, Add(to, from)) > 0
 
+\* ---- penumbra sweep: a proper frame, and the band is exactly the steps 0..K
+PenBand ==
+  Is("pen", "done") =>
+    LET u == <<shape[2], shape[3], shape[4]>>
+        w == <<shape[5], shape[6], shape[7]>>
+    IN /\ Dot(u, w) = 0 /\ N2(u) > 0 /\ N2(w) > 0
+       /\ (out.why = "penumbra") = (to[1] \in 0..shape[1])
+       /\ (out.margin = 0) = (to[1] \in {0, shape[1]})
+       /\ out.exp = (out.why = "lit")
+
 \* every intermediate stays far below 2^31
 NoOverflow ==
   pc = "done" =>
@@ -367,7 +440,7 @@ Emit == pc = "done" =>
 (***************************************************************************)
 (* Named constant values for the cfg files                                 *)
 (***************************************************************************)
-KindsAll == {"rect", "conic", "azmask", "elmask", "los", "limb", "sun"}
+KindsAll == {"rect", "conic", "azmask", "elmask", "azmaskcfg", "elmaskcfg", "los", "limb", "sun", "pen"}
 Seam(k)  == {(N - j) % N : j \in 0..k} \cup (0..k)
 Half(k)  == (N \div 2 - k)..(N \div 2 + k)
 Every(step, off) == {j * step + off : j \in 0..((N - 1 - off) \div step)}
@@ -389,6 +462,9 @@ MaskGridQuick    == Every(10, 0)
 MaskGridThorough == Every(5, 0)
 MaskAzQuick      == Seam(3) \cup Every(30, 9) \cup Every(45, 0)
 MaskAzThorough   == Seam(8) \cup Every(5, 1) \cup Every(10, 4) \cup Every(45, 0)
+\* configuration path: a few azimuths per mask, none on a grid edge (swapped limits flip all of them)
+MaskAzCfgQuick    == {1, 9, 45, 99, 181, 189, 271, 351}
+MaskAzCfgThorough == MaskAzCfgQuick \cup {4, 176, 264, 356}
 MaskElQuick      == {10}
 MaskElThorough   == {60}
 ElMasksAll       == {<<0, 90>>, <<-30, 30>>, <<10, 80>>, <<-89, 90>>, <<45, 45>>, <<30, 10>>}
@@ -401,6 +477,10 @@ LimbSensorsQuick    == {<<2, 1, 0>>, <<-1, 0, 2>>, <<2, 1, 1>>, <<2, 2, 1>>, <<0
 LimbSensorsThorough == LimbSensorsQuick \cup
                        {<<3, 0, 0>>, <<-3, 1, 2>>, <<0, -6, 0>>, <<6, 6, 6>>} \cup
                        {s \in Cube(4) : N2(s) > 4 /\ s[1] >= s[2] /\ s[2] >= s[3] /\ s[3] >= 0}
+\* penumbra sweep: frames <<u, w>> (u.w = 0), distances in tenths of an Earth radius
+PenFramesAll    == {<<<<1, 0, 0>>, <<0, 0, 1>>>>, <<<<1, 2, 2>>, <<2, 1, -2>>>>, <<<<-2, 3, 6>>, <<3, -6, 4>>>>}
+PenDistQuick    == {11, 15, 20, 42, 66, 100}
+PenDistThorough == {11, 12, 15, 20, 30, 42, 50, 66, 80, 100}
 SunDirsQuick        == {<<1, 0, 0>>, <<1, 1, 0>>, <<-1, 2, 2>>, <<2, -3, 1>>}
 SunDirsThorough     == SunDirsQuick \cup (Cube(1) \ {<<0, 0, 0>>}) \cup {<<3, 1, -2>>, <<-2, -2, 1>>}
 =============================================================================
